@@ -146,7 +146,7 @@ pub fn run(args: &Args) {
         return;
     }
     let mut rng = Rng::new(args.seed, "c15", args.shard);
-    let n_grammars = args.budget(30_000, 2_000_000);
+    let n_grammars = args.budget(12_000, 2_000_000);
     let cfg = GenCfg::new(Profile::Full);
     for gi in 0..n_grammars {
         if rep.elapsed() > args.max_s {
